@@ -3153,7 +3153,10 @@ def history_cases(draw, entry=None, point=None):
                 # grad mode in which the LAST operation is executed: the user idiom `with torch.no_grad(): t.data_(init)` and the
                 # library's own @torch.no_grad() setters; update() / call define a differentiable state only with autograd enabled
                 final_no_grad=False if final in ("update", "call", "fresh") else draw(st.sampled_from([True, True, False])),
-                prefix=[[op, bool(ng)] for op, ng in prefix], set_to_none=draw(st.booleans()))
+                prefix=[[op, bool(ng)] for op, ng in prefix], set_to_none=draw(st.booleans()),
+                # Module.train() / eval() flag at the time of the last operation and of the reads (inference / evaluation of a
+                # validation loss in eval mode): the pre-forward hook refreshes the buffers in either mode
+                mode=draw(st.sampled_from(["train", "eval"])))
     return case
 
 
@@ -3275,6 +3278,8 @@ def build_history_probe(case) -> Probe:
         with (torch.no_grad() if ng else torch.enable_grad()):
             _history_apply(cls, t, op, case, key + 1009 * (i + 1), x)
     final, fng = case["final"], bool(case["final_no_grad"])
+    if case.get("mode") in ("train", "eval"):  # (absent in replay files written before the flag was generated: left as the prefix set it)
+        t.train(case["mode"] == "train")
     with (torch.no_grad() if fng else torch.enable_grad()):
         _history_apply(cls, t, final, case, key + 77, x)
     leaves = [q for q in t.parameters() if q.requires_grad]
@@ -3309,7 +3314,7 @@ def build_history_probe(case) -> Probe:
 
     zero = _is_special(case) or final == "reset_parameters"
     labels = [f"D={case['D']}", f"N={case['N']}", f"T={cls}", f"read={read}", f"final={final}", f"final_no_grad={fng}",
-              f"prefix={len(case['prefix'])}", f"point={'special' if zero else 'generic'}"]
+              f"prefix={len(case['prefix'])}", f"point={'special' if zero else 'generic'}", f"mode={'train' if t.training else 'eval'}"]
     labels += [f"prefix_op={op}{'/no_grad' if ng else ''}" for op, ng in case["prefix"]]
     if cls in SVF:
         labels += [f"steps={case['steps']}", f"vscale={case['vscale']}"]
